@@ -433,6 +433,9 @@ impl SubCheck for Filter {
 			obs.class("unbuildable-request");
 			return;
 		};
+		// what the server is handed as the URI's authority component (the `http` crate has split it off the path:
+		// a generated text such as `a/` arrives as authority `a`)
+		let uri: Option<Vec<u8>> = req.uri().authority().map(|a| a.as_str().as_bytes().to_vec());
 		let called = Arc::new(AtomicUsize::new(0));
 		let c2 = called.clone();
 		let inner = tower::service_fn(move |_req: ::http::Request<Body>| {
